@@ -1538,6 +1538,9 @@ where
         };
         let effective_prover_data = recomputed_data.as_ref().unwrap_or(prover_data);
 
+        #[cfg(p3_recursion_verif)]
+        crate::verif_hooks::run_matrix_tamper(&mut trace_storage);
+
         let proof = {
             let trace_refs: Vec<&RowMajorMatrix<Val<SC>>> = trace_storage.iter().collect();
             let instances: Vec<StarkInstance<'_, SC, CircuitTableAir<SC, D>>> =
